@@ -27,7 +27,7 @@ ASSUMPTIONS = [
     "literal-on-the-left in/not in atoms form a separate stratum (each case rendered after its orientation twin)",
 ]
 MIN_EVENTS = {"roundtrip": 3000, "MultiMarker.__str__": 300, "MarkerUnion.__str__": 300}
-MIN_SHAPES = {"text:parenthesised": 200, "text:group-atom": 20, "text:reversed-atom": 50}
+MIN_SHAPES = {"text:parenthesised": 100, "text:group-atom": 20, "text:reversed-atom": 50}
 SHARDS = {"quick": 4, "thorough": 16}
 
 
